@@ -35,7 +35,7 @@ RULE = ("batches of 8 programs x 2 fresh processes (hash seeds 1/2/random, permu
 ASSUMPTIONS = ["uuid keys private to one DiskShuffle materialisation are masked", "pandas decides whether two spellings are semantically different"]
 CONFIG = {
     "quick": {"budget_s": 45, "batches": 48, "batch": 8, "procs": 2, "mutants": 10, "case_timeout_s": 900},
-    "thorough": {"budget_s": 600, "batches": 300, "batch": 10, "procs": 3, "mutants": 30, "case_timeout_s": 300},
+    "thorough": {"budget_s": 600, "batches": 150, "batch": 10, "procs": 3, "mutants": 30, "case_timeout_s": 300},
 }
 TIER = {"t": "quick"}
 MASK = re.compile(r"(zpartd|shuffle-partition|barrier|split-|shuffle-|repartition-split-\d+)-?[0-9a-f]{32}")
